@@ -190,12 +190,12 @@ func c18Scens(tier string) []e1Scen {
 	}
 	for _, variant := range []string{"mpegts", "fmp4", "ll"} {
 		for _, disk := range []bool{false, true} {
-			for _, extra := range []int{0, 2} {
+			for _, extra := range []int{0, 2, 3, 5, 9} {
 				cfg := mcfg(variant, disk, 3+extra, "h264", "aac44")
 				if variant == "ll" {
 					cfg.SegCount = 7 + extra
 				}
-				if tier != "thorough" && extra == 2 && !disk {
+				if tier != "thorough" && extra != 0 && !disk {
 					continue
 				}
 				// R, 3 frames, audio: 4 video units and 2 audio writes per second
@@ -218,6 +218,15 @@ func c18Scens(tier string) []e1Scen {
 		}
 		for fa := 1; fa <= nrot; fa++ {
 			out = append(out, e1Scen{Prop: "C18", Cfg: cfg, Alpha: word, Mode: "fault", Len: 4 * (nrot + cfg.SegCount + 4), FaultAt: fa, Name: fmt.Sprintf("rotation-fault-%d", fa)})
+		}
+	}
+	// the same failed rotation reached through the input alone: random-access units whose parameter sets cannot be
+	// parsed make the Write that has to build the init segment from them fail inside the rotation
+	for _, codec := range []string{"h264", "h265", "av1"} {
+		cfg := mcfg("ll", false, 7, codec)
+		word := []sym{{T: 0, D: "q", K: "R"}, {T: 0, D: "q", K: "n"}, {T: 0, D: "q", K: "n"}, {T: 0, D: "q", K: "n"}}
+		for fa := 1; fa <= 4; fa++ {
+			out = append(out, e1Scen{Prop: "C18", Cfg: cfg, Alpha: word, Mode: "paramfault", Len: 4 * (fa + cfg.SegCount + 4), FaultAt: fa, Name: fmt.Sprintf("bad-parameter-sets-%d", fa)})
 		}
 	}
 	// SegmentMaxSize: totals landing below, on and above the limit at every position of the tree
